@@ -739,7 +739,7 @@ def rounding_stream(ctx, use_driver=True):
     inputs, uniforms exactly 0.0 and in the top ulps of [0,1): out-of-range index / wrap-around /
     trailing zero cell must not be selected."""
     rng = ctx.rng
-    n = 80 if ctx.tier == "quick" else 1200
+    n = 60 if ctx.tier == "quick" else 1200
     for _ in range(n):
         sizes = rng.choice([[4], [4], [3, 4], [4, 4], [4, 4, 3], [4, 4, 4], [2, 4]])
         k = len(sizes)
@@ -780,7 +780,7 @@ def sample_streams(ctx, use_driver=True):
                     for _ in range(reps):
                         c = gen_sample_case(rng, sizes=list(sizes), sampled=list(sub))
                         check_sample_case(ctx, c, use_driver=use_driver)
-    n = 150 if ctx.tier == "quick" else 3000
+    n = 100 if ctx.tier == "quick" else 3000
     for _ in range(n):
         check_sample_case(ctx, gen_sample_case(rng), use_driver=use_driver)
     n = 90 if ctx.tier == "quick" else 1500
@@ -1415,7 +1415,7 @@ def multi_py(wit, S, which):
 
 def delta_streams(ctx, use_driver=True):
     rng = ctx.rng
-    n = 250 if ctx.tier == "quick" else 4000
+    n = 200 if ctx.tier == "quick" else 4000
     for _ in range(n):
         delta_eval_case(ctx, gen_delta_case(rng), use_driver=use_driver)
     for _ in range(n):
@@ -1647,7 +1647,7 @@ def replay_gauss(case):
 
 
 def gauss_streams(ctx):
-    n = 120 if ctx.tier == "quick" else 1500
+    n = 90 if ctx.tier == "quick" else 1500
     for _ in range(n):
         check_gauss_case(ctx, gen_gauss_case(ctx.rng))
 
@@ -1845,7 +1845,7 @@ def check_mixture_case(ctx, c):
 
 
 def mixture_streams(ctx):
-    n = 200 if ctx.tier == "quick" else 2500
+    n = 150 if ctx.tier == "quick" else 2500
     for _ in range(n):
         check_mixture_case(ctx, gen_mixture_case(ctx.rng))
 
@@ -2095,9 +2095,283 @@ def check_mc_case(ctx, c):
 
 
 def mc_streams(ctx):
-    n = 150 if ctx.tier == "quick" else 1500
+    n = 120 if ctx.tier == "quick" else 1500
     for _ in range(n):
         check_mc_case(ctx, gen_mc_case(ctx.rng))
+
+
+# --------------------------------------------------------------------------------------
+# The Precondition interpretation: reparametrised samples of Gaussians and Gaussian mixtures
+# --------------------------------------------------------------------------------------
+
+def gen_pre_case(rng):
+    ints = {}
+    if rng.random() < 0.7:
+        ints["i"] = ("both", rng.choice([1, 2, 3]))
+    if rng.random() < 0.3:
+        ints["j"] = ("T", rng.choice([2, 3]))
+    if rng.random() < 0.3:
+        ints["k"] = ("G", rng.choice([2, 3]))
+    rshape = {"x": rng.choice([(), (2,)])}
+    if rng.random() < 0.45:
+        rshape["y"] = rng.choice([(), (), (2,)])
+    guide = rng.choice(["G", "T+G", "T+G", "G+T", "N+G"])
+    model = rng.choice(["same", "same", "mix2", "gauss2", "plusT"])
+    approx = ["x"] if ("y" in rshape and rng.random() < 0.35) else sorted(rshape)
+    route = "approximate"
+    if model == "same" and approx == sorted(rshape) and guide != "N+G" and rng.random() < 0.4:
+        route = "fb"
+    return dict(ints={k: list(v) for k, v in ints.items()}, rshape={k: list(v) for k, v in rshape.items()},
+                guide=guide, model=model, approx=approx, route=route, seed=rng.randrange(2 ** 31))
+
+
+PRE_PY = """
+# replay for C14: reparametrised sampling under the Precondition interpretation; re-runs the harness' dense
+# closed-form oracle (fv/harness/c14.py check_pre_case) on the recorded case
+import sys
+sys.path.insert(0, {verif!r})
+from fv.harness.c14 import replay_pre
+FAILS = replay_pre({case!r})
+"""
+
+
+def replay_pre(case):
+    from ..common import Ctx
+    ctx = Ctx("C14")
+    check_pre_case(ctx, dict(case))
+    for f in ctx.failures:
+        print(f.name, (f.witness or {}).get("problem", ""), "expected", f.expected, "got", f.got)
+    return bool(ctx.failures)
+
+
+def check_pre_case(ctx, c):
+    from ..common import VERIF
+    from funsor.precondition import Precondition
+    from funsor.interpretations import reflect
+    rs = np.random.RandomState(c["seed"])
+    ints = {k: tuple(v) for k, v in c["ints"].items()}
+    rshape = {k: tuple(v) for k, v in c["rshape"].items()}
+    isize = {n: v[1] for n, v in ints.items()}
+    names = list(ints)
+    t_ints = [n for n in names if ints[n][0] in ("T", "both")]
+    g_ints = [n for n in names if ints[n][0] in ("G", "both")]
+    reals = list(rshape)
+    numel = {n: (int(np.prod(v)) if v else 1) for n, v in rshape.items()}
+    offs, o = {}, 0
+    for n in reals:
+        offs[n] = list(range(o, o + numel[n]))
+        o += numel[n]
+    dim = o
+    approx = list(c["approx"])
+    a_idx = [k for n in approx for k in offs[n]]
+    b_idx = [k for n in reals if n not in approx for k in offs[n]]
+    da = len(a_idx)
+    py = PRE_PY.format(verif=str(VERIF), case=c)
+    ctx.count(f"pre:{c['route']}:guide={c['guide']}:model={c['model']}:{'partial' if b_idx else 'full'}")
+
+    def mk_gauss(gi):
+        sh = tuple(isize[n] for n in gi)
+        P = rs.standard_normal(sh + (dim, dim)) + 2.0 * np.eye(dim)
+        wv = rs.standard_normal(sh + (dim,))
+        f = Gaussian(wv, P, OrderedDict([(n, Bint[isize[n]]) for n in gi]
+                                        + [(n, Reals[rshape[n]] if rshape[n] else Real) for n in reals]))
+        return f, ("G", P, wv, list(gi))
+
+    def mk_tensor(ti):
+        data = np.round(rs.standard_normal(tuple(isize[n] for n in ti)) * 4) / 4
+        return Tensor(data, OrderedDict((n, Bint[isize[n]]) for n in ti)), ("T", data, list(ti))
+    try:
+        g, gpart = mk_gauss(g_ints)
+        guide_parts = [gpart]
+        if c["guide"] in ("T+G", "G+T"):
+            w, wpart = mk_tensor(t_ints)
+            guide = (w + g) if c["guide"] == "T+G" else (g + w)
+            guide_parts.append(wpart)
+        elif c["guide"] == "N+G":
+            guide = Number(0.5) + g
+            guide_parts.append(("N", 0.5))
+        else:
+            guide = g
+        if c["model"] == "same":
+            model, model_parts = guide, guide_parts
+        elif c["model"] == "mix2":
+            g2, g2part = mk_gauss(g_ints[:1] if rs.random_sample() < 0.5 else g_ints)
+            w2, w2part = mk_tensor(t_ints)
+            model, model_parts = w2 + g2, [g2part, w2part]
+        elif c["model"] == "gauss2":
+            g2, g2part = mk_gauss(g_ints)
+            model, model_parts = g2, [g2part]
+        else:
+            t3, t3part = mk_tensor(names[:1])
+            model, model_parts = guide + t3, guide_parts + [t3part]
+    except DECLINE as e:
+        ctx.count(f"pre:build-declined:{type(e).__name__}")
+        return
+    if not isinstance(g, Gaussian):
+        ctx.count("pre:gaussian-compressed")
+        return
+
+    def dense(parts, env, z):
+        tot = 0.0
+        for part in parts:
+            if part[0] == "N":
+                tot += part[1]
+            elif part[0] == "T":
+                tot += float(part[1][tuple(env[n] for n in part[2])])
+            else:
+                _, P, wv, gi = part
+                b = tuple(env[n] for n in gi)
+                tot += -0.5 * float(((z @ P[b] - wv[b]) ** 2).sum())
+        return tot
+    _, P, wv, _ = gpart
+    Lam = P @ np.swapaxes(P, -1, -2)
+    eta = (P @ wv[..., None])[..., 0]
+    yb = rs.standard_normal(len(b_idx))
+    Laa = Lam[..., a_idx, :][..., :, a_idx]
+    r = eta[..., a_idx]
+    const = -0.5 * (wv ** 2).sum(-1)
+    if b_idx:
+        Lab = Lam[..., a_idx, :][..., :, b_idx]
+        Lbb = Lam[..., b_idx, :][..., :, b_idx]
+        r = r - (Lab @ yb[:, None])[..., 0]
+        const = const - 0.5 * (yb[None, :] @ Lbb @ yb[:, None])[..., 0, 0] + (eta[..., b_idx] * yb).sum(-1)
+    cmean = np.linalg.solve(Laa, r[..., None])[..., 0]
+    ccov = np.linalg.inv(Laa)
+    logint = (0.5 * da * math.log(2 * math.pi) - 0.5 * np.linalg.slogdet(Laa)[1]
+              + 0.5 * (r[..., None, :] @ np.linalg.solve(Laa, r[..., None]))[..., 0, 0] + const)
+    gshape = tuple(isize[n] for n in g_ints)
+    avars = frozenset(approx)
+    ysubs = {}
+    for n in reals:
+        if n not in approx:
+            ysubs[n] = Tensor(yb[[b_idx.index(k) for k in offs[n]]].reshape(rshape[n]))
+    all_order = [(n, isize[n]) for n in names]
+    g_order = [(n, isize[n]) for n in g_ints]
+    wit = dict(c)
+    try:
+        with np.errstate(all="ignore"):
+            if c["route"] == "approximate":
+                with Precondition() as pc:
+                    q = model.approximate(ops.logaddexp, guide, avars)
+                fwd = None
+            else:
+                from funsor.adjoint import forward_backward
+                with reflect:
+                    log_z = guide.reduce(ops.logaddexp, avars)
+                with Precondition() as pc:
+                    fwd, marginals = forward_backward(ops.logaddexp, ops.add, log_z, batch_vars=pc.sample_vars)
+                q = marginals[g] + g
+    except DECLINE + (KeyError,) as e:
+        ctx.count(f"pre:declined:{type(e).__name__}")
+        return
+    aux = list(pc.sample_inputs.items())
+    if len(aux) != 1 or tuple(aux[0][1].shape) != gshape + (da,):
+        w_ = dict(wit)
+        w_["problem"] = "auxiliary white-noise input(s) of the preconditioned sample"
+        ctx.fail("input", "C14.pre-inputs", witness=w_, expected=f"one input of shape {gshape + (da,)}",
+                 got=str([(k, tuple(v.shape)) for k, v in aux]), python=py)
+        return
+    aux_name = aux[0][0]
+    need = set(model.inputs) | {aux_name}
+    allowed = need | set(guide.inputs)
+    if not (need <= set(q.inputs) <= allowed) or q.output != Real:
+        w_ = dict(wit)
+        w_["problem"] = "inputs of the preconditioned sample"
+        ctx.fail("input", "C14.pre-inputs", witness=w_, expected=f"{sorted(need)} (+ guide inputs)",
+                 got=str(sorted(q.inputs)), python=py)
+        return
+
+    def point_at(noise):
+        pts = extract_samples(q)
+        cols = []
+        for n in approx:
+            pt = pts[n](**{aux_name: Tensor(noise)}, **{k: v for k, v in ysubs.items() if k in pts[n].inputs})
+            t = table(pt, g_order)
+            if t is None:
+                return None
+            cols.append(t.reshape(gshape + (-1,)))
+        return np.concatenate(cols, -1)
+    tol = dict(rtol=1e-7, atol=1e-8)
+    try:
+        with np.errstate(all="ignore"):
+            zero = np.zeros(gshape + (da,))
+            x0 = point_at(zero)
+            if x0 is None:
+                ctx.count("pre:lazy-point")
+                return
+            cols = []
+            for k in range(da):
+                e = zero.copy()
+                e[..., k] = 1.0
+                cols.append(point_at(e) - x0)
+            A = np.stack(cols, -1)
+            trials = []
+            for _ in range(2):
+                noise = rs.standard_normal(gshape + (da,))
+                xs = point_at(noise)
+                mass = q.reduce(ops.logaddexp, avars)(**{aux_name: Tensor(noise)},
+                                                      **{k: v for k, v in ysubs.items()})
+                trials.append((noise, xs, table(mass, all_order)))
+    except DECLINE + (KeyError,) as e:
+        ctx.count(f"pre:observe-declined:{type(e).__name__}")
+        return
+    if not np.allclose(x0, cmean, **tol):
+        w_ = dict(wit)
+        w_["problem"] = "Delta point at zero noise is not the (conditional) mean of the guide's Gaussian"
+        ctx.fail("input", "C14.pre-mean", witness=w_, expected=str(cmean.tolist()), got=str(x0.tolist()), python=py)
+        return
+    if not np.allclose(A @ np.swapaxes(A, -1, -2), ccov, **tol):
+        w_ = dict(wit)
+        w_["problem"] = "A A^T of the affine map noise -> point is not the (conditional) covariance"
+        ctx.fail("input", "C14.pre-cov", witness=w_, expected=str(ccov.tolist()),
+                 got=str((A @ np.swapaxes(A, -1, -2)).tolist()), python=py)
+        return
+    for noise, xs, tm in trials:
+        if not np.allclose(xs, x0 + (A @ noise[..., None])[..., 0], **tol):
+            w_ = dict(wit)
+            w_["problem"] = "Delta point is not affine in the noise"
+            ctx.fail("input", "C14.pre-affine", witness=w_, python=py)
+            return
+        if tm is None:
+            ctx.count("pre:mass-lazy")
+            continue
+        want = np.empty([k for _, k in all_order])
+        for idx in itertools.product(*[range(k) for _, k in all_order]):
+            env = dict(zip(names, idx))
+            gb = tuple(env[n] for n in g_ints)
+            z = np.zeros(dim)
+            z[a_idx] = xs[gb]
+            z[b_idx] = yb
+            # importance identity: mass = int exp(g') + model(x*) - g'(x*)   (= weights + normaliser when model = guide)
+            want[idx] = logint[gb] + dense(model_parts, env, z) - dense([gpart], env, z)
+        if not np.allclose(tm, want, rtol=1e-7, atol=1e-7):
+            w_ = dict(wit)
+            w_["problem"] = ("total mass of the preconditioned sample over the sampled reals, per batch element, at a noise "
+                             "value: expected  log int exp g' + model(x*) - g'(x*)"
+                             + ("  = weights + log-normaliser (model = guide)" if c["model"] == "same" else ""))
+            ctx.fail("input", "C14.pre-mass", witness=w_, expected=str(want.tolist()), got=str(tm.tolist()), python=py)
+            return
+    if fwd is not None:
+        tf = table(fwd, all_order)
+        want = np.empty([k for _, k in all_order])
+        for idx in itertools.product(*[range(k) for _, k in all_order]):
+            env = dict(zip(names, idx))
+            gb = tuple(env[n] for n in g_ints)
+            z = np.zeros(dim)
+            want[idx] = logint[gb] + dense(guide_parts, env, z) - dense([gpart], env, z)
+        if tf is not None and not np.allclose(tf, want, rtol=1e-7, atol=1e-7):
+            w_ = dict(wit)
+            w_["problem"] = "forward value of forward_backward under Precondition is not log Z"
+            ctx.fail("input", "C14.pre-forward", witness=w_, expected=str(want.tolist()), got=str(tf.tolist()), python=py)
+            return
+    ctx.case(sample={k: c[k] for k in ("ints", "rshape", "guide", "model", "approx", "route")},
+             nontrivial_key=("pre", str(c)))
+
+
+def pre_streams(ctx):
+    n = 90 if ctx.tier == "quick" else 1200
+    for _ in range(n):
+        check_pre_case(ctx, gen_pre_case(ctx.rng))
 
 
 # --------------------------------------------------------------------------------------
@@ -2150,7 +2424,12 @@ def correspond(ctx):
         "object (Tensor with -inf cells / Gaussian / mixture), different reduced-variable subsets (superset then strict "
         "subset and all orders) and integrands (1, indicator of the support, indicator of the -inf cells, random Tensor, x); "
         "gates per call: inputs, mass per particle and batch element = brute force, support, sample_inputs not consumed, "
-        "equal to the same call on a fresh instance with the same random state.  Non-trivial = a row with >= 2 positive cells (sample), domain size >= 2 "
+        "equal to the same call on a fresh instance with the same random state.  Precondition interpretation: guides "
+        "Gaussian / Tensor+Gaussian / Gaussian+Tensor / Number+Gaussian (integer inputs in both / weights only / Gaussian "
+        "only), model = guide or a different mixture / Gaussian / guide+Tensor, 1-2 real inputs (scalar, vector), all or a "
+        "strict subset approximated, via approximate() and via forward_backward; gates: one auxiliary noise input of the "
+        "documented shape, Delta point affine in the noise with the (conditional) mean / covariance, mass per batch "
+        "element and noise value = log int exp g' + model(x*) - g'(x*) in closed form.  Non-trivial = a row with >= 2 positive cells (sample), domain size >= 2 "
         "(Delta), >= 2 sampled dimensions or a conditioning block (Gaussian); distinct by full case content.")
     radix_box(ctx)
     sample_streams(ctx)
@@ -2159,6 +2438,7 @@ def correspond(ctx):
     gauss_streams(ctx)
     mixture_streams(ctx)
     mc_streams(ctx)
+    pre_streams(ctx)
     d = ctx.distribution
     tot = d.get("sample:fidelity-ok", 0) + d.get("sample:fidelity-differs", 0)
     ctx.extra["sample_model_fidelity"] = (d.get("sample:fidelity-ok", 0) / tot) if tot else None
@@ -2211,5 +2491,9 @@ def search(ctx, broken):
             return
     for _ in range(1500):
         check_mc_case(ctx, gen_mc_case(rng))
+        if found():
+            return
+    for _ in range(1000):
+        check_pre_case(ctx, gen_pre_case(rng))
         if found():
             return
